@@ -51,6 +51,8 @@ def check(ctx):
     repo = ctx.repo
     docs = require_labels(EULER_LABELS)
     ctx.note("specification", {k: v[:200] for k, v in docs.items()})
+    ctx.rule("R02.7", "z and w are computed from the psi, |psi|^2 and mu of *this* call: update() keeps no hidden numerical state "
+                      "across calls beyond the confirmed carried-state table", 4)
     ctx.rule("R02.1", "returned |psi'|^2 equals the documented quad-root and returned psi' the documented psi-sol, with z, w from the documentation", 2)
     ctx.rule("R02.2", "psi' + z x - w == 0 (update equation quad-1)", 1)
     ctx.rule("R02.3", "|psi'|^2 - x == 0 modulo sqrt(disc)^2 = disc; x is real", 2)
@@ -106,6 +108,10 @@ def check(ctx):
            construct="sign of the root", loc=L, message="the '-' root of the quadratic is used",
            consequence="|psi'|^2 diverges as |z| -> 0")
     check_refusals(ctx, f, decided)
+    from ..effects import cross_call_state
+    cross_call_state(ctx, "R02.7", "when update() is handed a psi it did not produce itself (second solve() on the same solver, seed "
+                                   "solution, retry after an interrupt) the remembered quantity belongs to another psi: z and w of "
+                                   "the update equation are built from inconsistent inputs and psi' + z|psi'|^2 = w is solved for the wrong step")
     ctx.assume("psi_laplacian @ psi is an arbitrary complex vector (atom Lpsi); abs_sq_psi is the caller's |psi|^2")
     ctx.assume("exact arithmetic: cancellation error of the citardauq form over ten decades of dt is not bounded")
     ctx.decline("floating-point accuracy of the root; behaviour on overflow")
